@@ -92,7 +92,7 @@ func main() {
 		total += genCrowd(out, rng, cnt(3, 40))
 		total += genBigQueue(out, rng, cnt(8, 60))
 		total += genQueueRing(out, rng, "battle", cnt(60, 1500))
-		total += genRingEdge(out, rng, "battle", cnt(90, 600), thorough) // thorough: one case with a limit above 65536 (16 minutes in the driver)
+		total += genRingEdge(out, rng, "battle", cnt(45, 600), thorough) // thorough: one case with a limit above 65536 (16 minutes in the driver)
 		total += genRespawnStorm(out, rng, "battle", cnt(300, 10000))
 	case "ringbig": // the one thorough-tier case of genRingEdge with a limit above 65536, alone
 		total += genRingEdge(out, rng, "api", 1, true)
@@ -116,7 +116,7 @@ func main() {
 			total += genManyResets(out, rng, 200)
 			total += genExtremes(out, rng, 20000)
 			total += genRespawnStorm(out, rng, "api", 20000)
-			total += genRingEdge(out, rng, "api", 400, false)
+			total += genRingEdge(out, rng, "api", 400, true)
 			total += genCounts(out, rng, true)
 			total += genLifeCycleBig(out, rng, 10000)
 			total += genWild(out, rng, 5000)
@@ -130,7 +130,7 @@ func main() {
 			total += genManyResets(out, rng, 12)
 			total += genExtremes(out, rng, 700)
 			total += genRespawnStorm(out, rng, "api", 600)
-			total += genRingEdge(out, rng, "api", 90, false)
+			total += genRingEdge(out, rng, "api", 45, false)
 			total += genCounts(out, rng, false)
 			total += genLifeCycleBig(out, rng, 300)
 			total += genWild(out, rng, 300)
